@@ -465,7 +465,22 @@ func (vc *VC) famSort(fam string) string {
 	if s, ok := vc.eng.famSorts[fam]; ok {
 		return s
 	}
+	if strings.HasPrefix(fam, "IT$") {
+		return "Int" // position of a map iterator
+	}
 	panic("unknown family sort: " + fam)
+}
+
+var elemRanges = map[string][2]string{
+	"E$int8":   {"(- 128)", "127"},
+	"E$int16":  {"(- 32768)", "32767"},
+	"E$int32":  {"(- 2147483648)", "2147483647"},
+	"E$int64":  {"(- 9223372036854775808)", "9223372036854775807"},
+	"E$int":    {"(- 9223372036854775808)", "9223372036854775807"},
+	"E$uint16": {"0", "65535"},
+	"E$uint32": {"0", "4294967295"},
+	"E$uint64": {"0", "18446744073709551615"},
+	"E$uint":   {"0", "18446744073709551615"},
 }
 
 // byteTyping: every element of a byte heap version is a byte (heap typing
@@ -482,6 +497,14 @@ func (vc *VC) get(s *State, fam string) Term {
 		if _, seen := vc.declared[q(fam+"@0")]; !seen {
 			n := vc.declare(fam+"@0", vc.famSort(fam))
 			vc.byteTyping(n)
+			return n
+		}
+	}
+	if rng, ok := elemRanges[fam]; ok {
+		// heap typing of the other integer element families (initial version)
+		if _, seen := vc.declared[q(fam+"@0")]; !seen {
+			n := vc.declare(fam+"@0", vc.famSort(fam))
+			vc.addAssertGlobal(fmt.Sprintf("(assert (forall ((a Int)) (! (and (<= %s (select %s a)) (<= (select %s a) %s)) :pattern ((select %s a)))))", rng[0], n, n, rng[1], n))
 			return n
 		}
 	}
